@@ -65,13 +65,13 @@ def case_recipe(G, espec, rng, nmods, annotate=False, refs=False, rotate=True, s
                 i, j = rng.sample(range(nref), 2)
                 base = spec["refs"][i].split("|")[0]
                 how = rng.random()
-                if how < 0.4:
+                if how < 0.3:
                     spec["refs"][i] = "%s||1-%d|" % (base, len(s2) // 2)
                     spec["refs"][j] = "%s||%d-%d|" % (base, len(s2) // 2, len(s2))
-                elif how < 0.8:
+                elif how < 0.6:
                     spec["refs"][i] = "%s|Submitted (01-JAN-2020)||" % base
                     spec["refs"][j] = "%s|Submitted (02-FEB-2021)||" % base
-                elif how < 0.9:
+                elif how < 0.72:
                     spec["refs"][j] = "%s|||second deposit" % base
                 else:         # two submissions with one title by different people, no PubMed id
                     spec["refs"][i] = "Direct Submission|Submitted|||Lee M.E."
